@@ -23,6 +23,7 @@ pub enum Mode { Genuine, StolenCert, OwnCert, BadFinished, ChainStolen, Truncate
 
 pub struct ImpostorOutcome {
     pub mode: Mode,
+    pub pin_prefix: Option<usize>,
     pub client_state: i128,
     pub client_exported: bool,
     pub impostor_finished_sent: bool,
@@ -75,7 +76,10 @@ fn open(key: &[u8], iv: &[u8], r: &Rec) -> Option<Vec<u8>> {
     Aes128Gcm::new_from_slice(key).unwrap().decrypt(Nonce::from_slice(&n), Payload { msg: body, aad: &aad(r.epoch, r.seq, r.ct, body.len() - 16) }).ok()
 }
 
-pub async fn run(mode: Mode) -> ImpostorOutcome {
+pub async fn run(mode: Mode) -> ImpostorOutcome { run_pinned(mode, None).await }
+
+/// `pin_prefix`: the client is pinned to only the first n characters of the genuine fingerprint string
+pub async fn run_pinned(mode: Mode, pin_prefix: Option<usize>) -> ImpostorOutcome {
     let t0 = Instant::now();
     let genuine = generate_certificate().unwrap();     // the identity promised by signalling
     let other = generate_certificate().unwrap();       // the impostor's own identity
@@ -83,7 +87,7 @@ pub async fn run(mode: Mode) -> ImpostorOutcome {
     let csock = Arc::new(UdpSocket::bind("127.0.0.1:0").await.unwrap());
     let ep = Endpoint::with_socket(csock, sock.local_addr().unwrap());
     let client_cert = generate_certificate().unwrap();
-    let (client, mut crx, crun) = DtlsTransport::new(ep.conn.clone(), client_cert, true, 1500, Some(fingerprint(&genuine))).await.unwrap();
+    let (client, mut crx, crun) = DtlsTransport::new(ep.conn.clone(), client_cert, true, 1500, Some({ let f = fingerprint(&genuine); match pin_prefix { Some(n) => f[..n.min(f.len())].to_string(), None => f } })).await.unwrap();
     let crun = tokio::spawn(crun);
 
     let (present, signer) = match mode {
@@ -180,7 +184,7 @@ pub async fn run(mode: Mode) -> ImpostorOutcome {
     }
     let st = client.get_state();
     let out = ImpostorOutcome {
-        mode,
+        mode, pin_prefix,
         client_state: match st { DtlsState::New => 0, DtlsState::Handshaking => 1, DtlsState::Connected(..) => 2, DtlsState::Failed => 3, DtlsState::Closed => 4 },
         client_exported: client.export_keying_material("EXTRACTOR-dtls_srtp", 60).is_ok(),
         impostor_finished_sent: fin_sent, client_finished_ok: client_fin_ok, app_from_impostor_delivered: delivered,
